@@ -102,6 +102,7 @@ def gen(rng, tier, index):
     spec["xform"] = gens.pick(rng, forms.PRESENT)
     spec["yform"] = gens.pick(rng, forms.PRESENT)
     spec["clobber"] = bool(rng.random() < 0.5)
+    spec["npscalars"] = bool(rng.random() < 0.3)
     return {"spec": spec, "X": X, "y": y, "kind": kind, "unit": unit, "past": past}
 
 
@@ -214,6 +215,8 @@ def run(case, j):
         j.note("non_default_containers")
     if spec.get("xint"):
         j.note("integer_typed_inputs")
+    if spec.get("npscalars"):
+        j.note("numpy_scalar_parameters")
     axis = sel.axis_of(spec)
     kw = spec["kw"]
     j.tag(f"{spec['dir']}:{spec['cls']}", f"data:{case['kind']}", f"re:{kw['recompute_every']}", f"k:{kw['k']}", f"mixing:{kw.get('mixing')}")
